@@ -7,6 +7,6 @@ git checkout -q -- . && git clean -fdq
 git apply "$P" || { echo "apply failed"; exit 2; }
 TV=$(mktemp -d); cp /verif/known_findings.json "$TV/"
 trap 'cd "$WT" && git checkout -q -- . && git clean -fdq; rm -rf "$TV"' EXIT
-out=$(/verif/run checkall --repo "$WT" --verif "$TV" 2>&1)
+out=$(${DNSVERIF_BIN:-/verif/run} checkall --repo "$WT" --verif "$TV" 2>&1)
 echo "$out" | grep '^=== ' | awk '{printf "%s:%s ", $2, $3} END {print ""}'
 echo "$out" | grep -v '^VIOLATION\|^\[\|^KNOWN-FINDING\|^OK\|^FAIL property\|^=== ' | cut -c1-${WIDTH:-500} | head -${LINES_SHOWN:-12}
